@@ -6,7 +6,7 @@ CFG = {'streams': [{'name': 'C11',
               'what_fails': "cancellation: model vs implementation result (codes 1-7); 10 the implementation's poll-label trace differs from the "
                             "model's; 11 the model is not cancelled with the same label at a sampled k; 30 on the implementation, a flag failing "
                             'from poll k on did not yield exactly ExecutionError::Cancelled or a further poll happened (exhaustive over k = '
-                            '1..number of polls); 31 on the implementation, a successful lazy run made fewer per-match polls than the merged query has matches',
+                            '1..number of polls); 12 for some poll label the implementation polled fewer times than the model, whose polls are exactly one per unit of work of that kind (statement, attribute, scan iteration, match, deferred evaluation: theorems polls_each_*), i.e. a unit of work ran unpolled; 31 on the implementation, a successful lazy run made fewer per-match polls than the merged query has matches',
               'model_only_codes': [10, 11]}],
  'rule': 'generated programs (as C01) on short sources, both modes; for every k from 1 to the total number of polls of the uncancelled run '
          '(exhaustive) the real library is run with a flag failing from poll k on; the model is additionally checked at 4 sampled k; non-trivial = '
